@@ -11,6 +11,7 @@ import armi.reactor.composites as compmod
 import armi.reactor.components.component as cmod
 import armi.reactor.blocks as blkmod
 import armi.physics.neutronics.crossSectionGroupManager as xm
+import armi.materials.material as matmod
 from armi.utils.units import TRACE_NUMBER_DENSITY
 
 from harness import _build
@@ -19,21 +20,24 @@ shims.patch(compmod, np=shims.np_shim)
 shims.patch(cmod, np=shims.np_shim, float=shims.float_shim)
 shims.patch(blkmod, np=shims.np_shim)
 shims.patch(xm, np=shims.np_shim)
+shims.patch(matmod, np=shims.np_shim)
 
-STUBS = ["composites.np / component.np / blocks.np / crossSectionGroupManager.np -> object-array aware numpy shim",
+STUBS = ["composites.np / component.np / blocks.np / crossSectionGroupManager.np / materials.material.np -> "
+         "object-array aware numpy shim (np.isnan(proxy)=False)",
          "component.float -> identity on proxies",
          "component volumes are the real geometry at the build temperatures, cached before the symbolic "
          "temperatures are assigned (the temperature is only the averaged quantity, not a driver of expansion)"]
 
 SEED = int(os.environ.get("VERIF_SEED", "0") or 0)
 
-# which component holds which nuclide; a trailing '0' marks a density that may be exactly zero (trace branch)
+# which component holds which nuclide.  "X" symbolic density in [1e-6,1]; "X?" symbolic in [0,1] (exactly zero
+# allowed: counted as trace in temperatures); "X=0" held with a concrete zero density (a massless component)
 PATTERNS = {
-    "typical": {"fuel": ["U235", "U238"], "clad": ["FE"]},
-    "shared": {"fuel": ["U235", "FE"], "clad": ["FE"], "duct": ["FE"]},
-    "sparse": {"fuel": ["U235"]},
+    "typical": {"fuel": ["U235?", "U238"], "clad": ["FE"], "duct": ["FE=0"]},
+    "shared": {"fuel": ["U235?", "FE"], "clad": ["FE"], "duct": ["FE"]},
+    "sparse": {"fuel": ["U235?"], "clad": ["FE=0"], "duct": ["FE=0"]},
 }
-ZERO_OK = {("fuel", "U235")}
+TLO, THI = 25.0, 750.0     # deg C, inside the validity range of the material correlations (no range warnings)
 NUCS = ["U235", "U238", "FE", "PU239"]     # PU239 is in the problem but in no block
 
 
@@ -53,7 +57,7 @@ def heights(n, symbolic_ctx=None):
 class Member:
     """One block of the collection together with the symbols injected into it."""
 
-    def __init__(self, ctx, k, btype, pattern, symH=False, zeroFlux=True, burn=True, zeros=ZERO_OK, h=None):
+    def __init__(self, ctx, k, btype, pattern, zeroFlux=True, burn=True, h=None, zeroAt=None, symT=True):
         self.k = k
         self.b = b = _build.mk_block(btype, height=10.0 if is_sym(h) else h, intercoolant=False)
         b.name = "B%04d" % k
@@ -66,17 +70,30 @@ class Member:
                 c.p.volume = None
             self.vol[c.name] = c.getVolume()          # cached in c.p.volume from here on
         self.V = sum(self.vol.values())
+        # the member's component volumes as its own API reports them: volume fraction x block volume
+        # (equal to getVolume() of the component up to rounding; C02 checks that relation on its own)
+        self.vf = {c.name: f for c, f in b.getVolumeFractions()}
+        for name, v in self.vol.items():
+            ctx.check_close("member %d: volume fraction x block volume = volume of %s" % (k, name),
+                            self.vf[name] * self.V, v, scale=v)
         self.h = h
         self.dens = {}
         self.T = {}
         for c in b:
             nd = {}
-            for nuc in PATTERNS[pattern].get(c.name, []):
-                lo = 0.0 if (c.name, nuc) in zeros else 1e-6
+            for spec in PATTERNS[pattern].get(c.name, []):
+                nuc = spec.rstrip("?").split("=")[0]
+                if spec.endswith("=0"):
+                    nd[nuc] = self.dens[(c.name, nuc)] = 0.0
+                    continue
+                lo = 0.0 if spec.endswith("?") and (zeroAt is None or k in zeroAt) else 1e-6
                 nd[nuc] = self.dens[(c.name, nuc)] = ctx.real("n%d_%s_%s" % (k, c.name, nuc), lo, 1.0)
             c.p.numberDensities = nd
-            self.T[c.name] = ctx.real("T%d_%s" % (k, c.name), 0.0, 3000.0)
-            c.temperatureInC = self.T[c.name]
+            if symT:
+                self.T[c.name] = ctx.real("T%d_%s" % (k, c.name), TLO, THI)
+                c.temperatureInC = self.T[c.name]
+            else:
+                self.T[c.name] = c.temperatureInC
         self.flux = ctx.real("flux%d" % k, 0.0 if zeroFlux else 1e-3, 1e3)
         b.p.flux = self.flux
         if burn:
@@ -87,9 +104,30 @@ class Member:
         b.p.percentBu = self.bu
         b.p.massHmBOL = self.hm
 
-    # the member's own values (plain definitions from the injected symbols)
+    def twin(self, fluxFactor=1.0):
+        """A second, independent block carrying the same values (weighting parameter optionally rescaled)."""
+        b = _build.mk_block(self.b.getType(), height=self.h, intercoolant=False)
+        b.name = self.b.name + "t"
+        for c, c0 in zip(b, self.b):
+            c.getVolume()
+            c.p.numberDensities = dict(c0.p.numberDensities)
+            c.temperatureInC = c0.temperatureInC
+        b.p.flux = self.flux * fluxFactor
+        b.p.percentBu = self.bu
+        b.p.massHmBOL = self.hm
+        return b
+
+    # the member's own values
     def N(self, nuc):
+        """homogenised density by definition: sum(v n)/V"""
         return sum(self.vol[c] * n for (c, k), n in self.dens.items() if k == nuc) / self.V
+
+    def values(self, ctx, nucs):
+        """homogenised densities as the member's public getter reports them (cross-checked with the definition)"""
+        self.x = dict(zip(nucs, self.b.getNuclideNumberDensities(nucs)))
+        for nuc in nucs:
+            ctx.check_close("member %d: N(%s) is the volume-weighted mean of its components" % (self.k, nuc),
+                            self.x[nuc], self.N(nuc), scale=self.N(nuc) + 1e-30)
 
     def snapshot(self):
         b = self.b
@@ -105,8 +143,6 @@ class Member:
 
 
 def same(a, b):
-    if is_sym(a) or is_sym(b):
-        return a == b
     return a == b
 
 
@@ -148,10 +184,16 @@ CASES = {
 }
 
 
-def build(ctx, case, pattern, symH=False, **kw):
+def build(ctx, case, pattern, symH=False, allZeros=False, **kw):
+    """allZeros: every "X?" density of every member may be exactly zero (2^n trace/non-trace paths); otherwise only
+    the one of a single eligible member (quick tier)."""
     types, valid = CASES[case]
     hs = heights(len(types), ctx if symH else None)
+    n = len(types)
+    kw.setdefault("zeroAt", None if symH or allZeros else (min(1, n - 1),))
     members = [Member(ctx, k, t, pattern, h=hs[k], **kw) for k, t in enumerate(types)]
+    for m in members:
+        m.values(ctx, NUCS)
     elig = [m for m, t in zip(members, types) if valid is None or t in valid]
     return members, elig, valid
 
@@ -165,19 +207,20 @@ def mixed_zero(elig, weighted):
 
 @harness("C20", bounds="<=3 real HexBlocks x 3 components, concrete pairwise different heights (VERIF_SEED) -> "
                        "concrete volumes; symbolic: flux in [0,1e3] incl. exactly 0, densities in [0 or 1e-6, 1], "
-                       "component temperatures in [0,3000] C; nuclide placement patterns and block-type filters "
+                       "component temperatures in [25,750] C; nuclide placement patterns and block-type filters "
                        "enumerated; thorough: symbolic block heights in [1,400]",
          stubs=STUBS, qtimeout_ms=20000, raises=(),
          instances={"quick": [dict(case="all3", pattern="typical", kind="flux"),
                               dict(case="all2", pattern="shared", kind="flux"),
                               dict(case="last_out", pattern="shared", kind="flux"),
                               dict(case="first_out", pattern="typical", kind="volume"),
-                              dict(case="one", pattern="sparse", kind="flux")],
-                    "thorough": [dict(case=c, pattern=p, kind=k, symH=s)
+                              dict(case="one", pattern="sparse", kind="flux"),
+                              dict(case="all2", pattern="typical", kind="flux", symH=True)],
+                    "thorough": [dict(case=c, pattern=p, kind=k, symH=s, allZeros=True)
                                  for c in ("all3", "last_out", "first_out") for p in PATTERNS
                                  for k in ("flux", "volume") for s in (False, True)]})
-def average_block_is_weighted_mean(ctx, case, pattern, kind, symH=False):
-    members, elig, valid = build(ctx, case, pattern, symH=symH, burn=False)
+def average_block_is_weighted_mean(ctx, case, pattern, kind, symH=False, allZeros=False):
+    members, elig, valid = build(ctx, case, pattern, symH=symH, allZeros=allZeros, burn=False)
     weighted = kind == "flux"
     col = make_collection(kind, valid)
     col.extend(m.b for m in members)
@@ -198,38 +241,395 @@ def average_block_is_weighted_mean(ctx, case, pattern, kind, symH=False):
     ctx.check("representative is a new object", all(rep is not m.b for m in members))
     avg = col._getAverageNumberDensities()
     for nuc in NUCS:
-        xs = [m.N(nuc) for m in elig]
+        xs = [m.x[nuc] for m in elig]
         want = wmean(ws, xs)
-        if ctx.canary and nuc == "FE":
-            want = sum(xs) / len(xs)
+        if ctx.canary and nuc == "U235":
+            want = want * ITE(elig[0].flux > 900, 1.01, 1.0)
         scale = sum(xs) + 1e-30
         ctx.check_close("averaged N(%s) = sum(w x)/sum(w) over eligible members" % nuc, avg[nuc], want, scale=scale)
         ctx.check_close("representative block holds the averaged N(%s)" % nuc, rep.getNumberDensity(nuc), want,
                         scale=scale)
-        tol = 1e-9 * scale
         ctx.check("averaged N(%s) within [min,max] of the members" % nuc,
-                  AND(avg[nuc] >= MIN(*xs) - tol, avg[nuc] <= MAX(*xs) + tol))
+                  AND(avg[nuc] >= MIN(*xs) - 1e-12, avg[nuc] <= MAX(*xs) + 1e-12))
         ctx.check("members agree on N(%s) => the average is that value" % nuc,
                   IMPLIES(AND(*[x == xs[0] for x in xs[1:]]) if len(xs) > 1 else True,
                           CLOSE(avg[nuc], xs[0], scale=scale)))
-    # nuclide temperatures: T = sum(w n v T)/sum(w n v), zero densities counted as trace
+    check_nuclide_temperatures(ctx, col, elig, ws)
+
+
+def check_nuclide_temperatures(ctx, col, elig, ws):
+    """T(nuc) = sum(w n v T)/sum(w n v) over the components of the eligible members that hold the nuclide,
+    zero densities counted as trace (documented in getBlockNuclideTemperatureAvgTerms)."""
     for nuc in NUCS:
-        num, den, Ts = 0.0, 0.0, []
+        num, den, Ts, As = 0.0, 0.0, [], []
         for m, w in zip(elig, ws):
             for (c, k), n in m.dens.items():
                 if k == nuc:
                     nn = ITE(n == 0, TRACE_NUMBER_DENSITY, n)
-                    num = num + w * nn * m.vol[c] * m.T[c]
-                    den = den + w * nn * m.vol[c]
+                    a = w * nn * m.vf[c] * m.V          # weight x atoms of the nuclide in that component
+                    num = num + a * m.T[c]
+                    den = den + a
                     Ts.append(m.T[c])
+                    As.append(a)
         got = col.avgNucTemperatures[nuc]
         if not Ts:
             ctx.check("temperature of a nuclide held by no member is reported as 0", got == 0.0)
             continue
         ctx.check_close("T(%s) = sum(w n v T)/sum(w n v) over eligible members" % nuc, got * den, num,
-                        scale=den * 3000.0)
-        ctx.check("T(%s) within [min,max] of the holders' temperatures" % nuc,
-                  AND(got >= MIN(*Ts) - 1e-6, got <= MAX(*Ts) + 1e-6))
+                        scale=den * THI)
+        ctx.check("T(%s): the weights of that mean are positive (=> a convex combination)" % nuc,
+                  AND(*[a > 0 for a in As]))
+        if len(Ts) <= 3:
+            ctx.check("T(%s) within [min,max] of the holders' temperatures" % nuc,
+                      AND(got >= MIN(*Ts) - 1e-9, got <= MAX(*Ts) + 1e-9))
         ctx.check("holders agree on T(%s) => that value" % nuc,
                   IMPLIES(AND(*[t == Ts[0] for t in Ts[1:]]) if len(Ts) > 1 else True,
-                          CLOSE(got, Ts[0], scale=3000.0)))
+                          CLOSE(got, Ts[0], scale=THI)))
+
+
+@harness("C20", bounds="as average_block_is_weighted_mean, component-level averaging (averageByComponent=True): "
+                       "per matching component densities and temperatures; one component without nuclides "
+                       "(zero mass -> documented plain mean of temperatures)",
+         stubs=STUBS, qtimeout_ms=20000,
+         instances={"quick": [dict(case="all3", pattern="typical", kind="flux"),
+                              dict(case="last_out", pattern="shared", kind="flux"),
+                              dict(case="first_out", pattern="shared", kind="volume"),
+                              dict(case="all2", pattern="typical", kind="flux", symH=True)],
+                    "thorough": [dict(case=c, pattern=p, kind=k, symH=s, allZeros=True)
+                                 for c in ("all3", "all2", "last_out", "first_out") for p in PATTERNS
+                                 for k in ("flux", "volume") for s in (False, True)]})
+def component_average_is_weighted_mean(ctx, case, pattern, kind, symH=False, allZeros=False):
+    members, elig, valid = build(ctx, case, pattern, symH=symH, allZeros=allZeros, burn=False)
+    weighted = kind == "flux"
+    col = make_collection(kind, valid, byComponent=True)
+    col.extend(m.b for m in members)
+    before = [m.snapshot() for m in members]
+    masses = [{c.name: c.getMass() for c in m.b} for m in elig]      # the members' own component masses
+    try:
+        rep = col.createRepresentativeBlock()
+        raised = False
+    except ValueError:
+        raised = True
+    ctx.check("ValueError iff eligible members mix zero and non-zero weighting parameter",
+              IFF(raised, mixed_zero(elig, weighted)))
+    check_unchanged(ctx, members, before, "createRepresentativeBlock (by component)")
+    if raised:
+        return
+    ws = weights(elig, weighted)
+    names = [c.name for c in members[0].b]
+    ctx.check("representative has the members' components", sorted(c.name for c in rep) == sorted(names))
+    for rc in rep:
+        cname = rc.name
+        for nuc in NUCS:
+            xs = [m.dens.get((cname, nuc), 0.0) for m in elig]
+            want = wmean(ws, xs)
+            if ctx.canary and nuc == "U235" and cname == "fuel":
+                want = want * ITE(elig[0].flux > 900, 1.01, 1.0)
+            got = rc.getNumberDensity(nuc)
+            scale = sum(xs) + 1e-30
+            ctx.check_close("%s: averaged N(%s) = sum(w x)/sum(w) over eligible members" % (cname, nuc), got, want,
+                            scale=scale)
+            if any(is_sym(x) for x in xs):
+                ctx.check("%s: averaged N(%s) within [min,max] of the members" % (cname, nuc),
+                          AND(got >= MIN(*xs) - 1e-12, got <= MAX(*xs) + 1e-12))
+                ctx.check("%s: members agree on N(%s) => that value" % (cname, nuc),
+                          IMPLIES(AND(*[x == xs[0] for x in xs[1:]]) if len(xs) > 1 else True,
+                                  CLOSE(got, xs[0], scale=scale)))
+        # component temperature: block weight (without the block height, which the mass already carries) x mass
+        Ts = [m.T[cname] for m in elig]
+        mw = [w / m.b.getHeight() * mm[cname] for m, w, mm in zip(elig, ws, masses)]
+        tot = sum(mw)
+        got = rc.temperatureInC
+        plain = sum(Ts) / len(Ts)
+        # (for a massless component both sides of the first relation vanish; the second one then fixes the value)
+        ctx.check_close("%s: temperature x sum(w m) = sum(w m T)  (mass-and-weight weighted mean)" % cname, got * tot,
+                        sum(a * t for a, t in zip(mw, Ts)), scale=tot * THI + 1e-30)
+        ctx.check("%s: massless component => plain mean of the members' temperatures (as documented)" % cname,
+                  IMPLIES(tot == 0, CLOSE(got, plain, scale=THI)))
+        ctx.check("%s: temperature within [min,max] of the members" % cname,
+                  AND(got >= MIN(*Ts) - 1e-9, got <= MAX(*Ts) + 1e-9))
+        ctx.check("%s: members agree on the temperature => that value" % cname,
+                  IMPLIES(AND(*[t == Ts[0] for t in Ts[1:]]) if len(Ts) > 1 else True, CLOSE(got, Ts[0], scale=THI)))
+    check_nuclide_temperatures(ctx, col, elig, ws)
+
+
+# The property: "the representative block of a group is built only from the group's eligible members ... the
+# averaged burnup is the heavy-metal-weighted mean".  _calcWeightedBurnup loops over ALL members.
+KNOWN_DEFECT_burnup_counts_ineligible_members = False  # repaired in /repo (fix: 3bb5d80)
+
+
+@harness("C20", bounds="<=3 real HexBlocks; symbolic percentBu in [0,100], massHmBOL in [0,1e5] (incl. 0), flux in "
+                       "[0,1e3] incl. 0; block-type filters enumerated",
+         stubs=STUBS, qtimeout_ms=20000,
+         instances={"quick": [dict(case="all3", kind="flux"), dict(case="all2", kind="volume"),
+                              dict(case="last_out", kind="flux"), dict(case="first_out", kind="volume")],
+                    "thorough": [dict(case=c, kind=k) for c in CASES for k in ("flux", "volume")]})
+def averaged_burnup_is_heavy_metal_weighted_mean(ctx, case, kind):
+    members, elig, valid = build(ctx, case, "sparse", burn=True)
+    weighted = kind == "flux"
+    col = make_collection(kind, valid)
+    col.extend(m.b for m in members)
+    before = [m.snapshot() for m in members]
+    try:
+        rep = col.createRepresentativeBlock()
+    except ValueError:
+        ctx.check("ValueError only for mixed zero / non-zero weighting parameter", mixed_zero(elig, weighted))
+        return
+    check_unchanged(ctx, members, before, "createRepresentativeBlock")
+    who = members if KNOWN_DEFECT_burnup_counts_ineligible_members else elig
+    # heavy-metal weight: initial heavy-metal mass x weighting parameter (volume is already inside the mass);
+    # a zero parameter counts as 1 (eligible members are all-zero or all-positive here)
+    hw = [m.hm * (ITE(m.flux == 0, 1.0, m.flux) if weighted else 1.0) for m in who]
+    tot = sum(hw)
+    got = rep.p.percentBu
+    num = sum(w * m.bu for w, m in zip(hw, who))
+    if ctx.canary:
+        num = num * ITE(who[0].bu > 90, 1.01, 1.0)
+    ctx.check_close("burnup x sum(hm w) = sum(hm w bu) over eligible members", got * tot, num, scale=tot * 100 + 1e-30)
+    ctx.check("no heavy metal at all => burnup reported as 0", IMPLIES(tot == 0, got == 0))
+    bus = [m.bu for m, w in zip(who, hw)]
+    ctx.check("averaged burnup within [min,max] of the members (or 0 without heavy metal)",
+              OR(tot == 0, AND(got >= MIN(*bus) - 1e-9, got <= MAX(*bus) + 1e-9)))
+
+
+@harness("C20", bounds="<=3 real HexBlocks; symbolic percentBu in [0,100] (ties included), flux in [1e-3,1e3], "
+                       "densities, temperatures; weighting parameter None (volume) or flux; type filters enumerated",
+         stubs=STUBS, qtimeout_ms=20000,
+         instances={"quick": [dict(case="all3", wparam=None), dict(case="all3", wparam="flux"),
+                              dict(case="all2", wparam="flux"), dict(case="last_out", wparam="flux"),
+                              dict(case="first_out", wparam=None), dict(case="one", wparam=None)],
+                    "thorough": [dict(case=c, wparam=w, pattern=p) for c in CASES for w in (None, "flux")
+                                 for p in ("typical", "shared")]})
+def median_block_is_a_member_with_middle_weighted_burnup(ctx, case, wparam, pattern="typical"):
+    members, elig, valid = build(ctx, case, pattern, burn=True, zeroFlux=False)
+    col = make_collection("median", valid)
+    col.weightingParam = wparam
+    col.extend(m.b for m in members)
+    before = [m.snapshot() for m in members]
+    rep = col.createRepresentativeBlock()
+    check_unchanged(ctx, members, before, "createRepresentativeBlock (median)")
+    chosen = [m for m in members if m.b.name == rep.name]
+    ctx.check("the representative is a copy of exactly one member", len(chosen) == 1 and rep is not chosen[0].b)
+    if len(chosen) != 1:
+        return
+    ch = chosen[0]
+    ctx.check("... of an eligible member", ch in elig)
+    snap = before[ch.k]
+    for c in rep:
+        ctx.check("copy keeps temperature of %s" % c.name, same(c.temperatureInC, snap["T_" + c.name]))
+        for nuc, n in c.p.numberDensities.items():
+            ctx.check("copy keeps N(%s) of %s" % (nuc, c.name), same(n, snap["n_%s_%s" % (c.name, nuc)]))
+    ctx.check("copy keeps burnup, heavy metal, flux", AND(same(rep.p.percentBu, snap["bu"]),
+                                                        same(rep.p.massHmBOL, snap["hm"]),
+                                                        same(rep.p.flux, snap["flux"])))
+    # weighted burnup = burnup x (weighting parameter x volume); the chosen one is the floor(n/2)-th order statistic
+    key = {m.k: m.bu * (m.flux if wparam else 1.0) * m.V for m in elig}
+    n = len(elig)
+    nless = sum(ITE(key[m.k] < key[ch.k], 1, 0) for m in elig)
+    nleq = sum(ITE(key[m.k] <= key[ch.k], 1, 0) for m in elig)
+    bound = n // 2
+    if ctx.canary:
+        bound = bound - ITE(elig[0].bu > 90, 1, 0)
+    ctx.check("at most floor(n/2) eligible members lie strictly below the chosen weighted burnup", nless <= bound)
+    ctx.check("at least floor(n/2)+1 eligible members lie at or below it", nleq >= n // 2 + 1)
+    # nuclide temperatures are those of the chosen member alone
+    check_nuclide_temperatures(ctx, col, [ch], [1.0])
+
+
+@harness("C20", bounds="2 real HexBlocks (+ twins carrying the same values); symbolic flux in [1e-3,1e3], densities, "
+                       "temperatures, burnup, heavy metal; common rescaling factor k in [1e-3,1e3] of all weights",
+         stubs=STUBS, qtimeout_ms=20000,
+         instances={"quick": [dict(pattern="typical", byComponent=False), dict(pattern="shared", byComponent=True)],
+                    "thorough": [dict(pattern=p, byComponent=bc) for p in PATTERNS for bc in (False, True)]})
+def average_unchanged_by_duplicating_members_or_rescaling_weights(ctx, pattern, byComponent):
+    members, elig, valid = build(ctx, "all2", pattern, burn=True, zeroFlux=False)
+    k = ctx.real("k", 1e-3, 1e3)
+
+    def run(blocks):
+        col = make_collection("flux", None, byComponent=byComponent)
+        col.extend(blocks)
+        rep = col.createRepresentativeBlock()
+        out = {"bu": rep.p.percentBu}
+        for nuc in NUCS:
+            out["N_" + nuc] = rep.getNumberDensity(nuc)
+            out["T_" + nuc] = col.avgNucTemperatures[nuc]
+        for c in rep:
+            out["Tc_" + c.name] = c.temperatureInC
+            for nuc in c.p.numberDensities:
+                out["Nc_%s_%s" % (c.name, nuc)] = c.getNumberDensity(nuc)
+        return out
+
+    base = run([m.b for m in members])
+    dup = run([m.b for m in members] + [m.twin() for m in members])
+    resc = run([m.twin(fluxFactor=k) for m in members])
+    if ctx.canary:
+        resc["N_U235"] = resc["N_U235"] * ITE(k > 900, 1.01, 1.0)
+    ctx.check("same set of results", sorted(base) == sorted(dup) == sorted(resc))
+    for key, v in base.items():
+        scale = {"b": 100.0, "N": 1.0, "T": THI}[key[0]]
+        ctx.check_close("duplicating every member leaves %s unchanged" % key, dup[key], v, scale=scale)
+        ctx.check_close("rescaling all weights leaves %s unchanged" % key, resc[key], v, scale=scale)
+
+
+# ---------------------------------------------------------------------------------------------------------------
+# partition: environment (burnup x temperature) groups and cross-section groups
+
+
+class _NS:
+    def __init__(self, **kw):
+        self.__dict__.update(kw)
+
+
+def make_manager(buBounds, tempBounds):
+    """A CrossSectionGroupManager without reactor/operator: only the attributes the grouping methods read."""
+    from armi.physics.neutronics.crossSectionSettings import XSSettings
+    from armi.physics.neutronics.const import CONF_CROSS_SECTION
+
+    csm = object.__new__(xm.CrossSectionGroupManager)
+    xs = XSSettings()
+    xs.setDefaults(xm.AVERAGE_BLOCK_COLLECTION, None)
+    csm.cs = {CONF_CROSS_SECTION: xs, "tempGroups": list(tempBounds), "buGroups": list(buBounds)}
+    csm.r = _NS(blueprints=_NS(allNuclidesInProblem=list(NUCS)))
+    csm._envGroupUpdatesEnabled = True
+    csm._setBuGroupBounds(list(buBounds))            # the real validators
+    csm._setTempGroupBounds(list(tempBounds))
+    return csm
+
+
+def group_index(x, bounds):
+    """Index of the half-open interval (lower, upper] that holds x; the last group is unbounded above."""
+    return sum(ITE(x > u, 1, 0) for u in bounds)
+
+
+XS_TYPES = ("A", "B", "A")
+
+
+@harness("C20", bounds="3 real HexBlocks with XS types A,B,A; symbolic burnup in [0,100]; nb<=3 symbolic ascending "
+                       "burnup boundaries in (0,100] and nt<=2 symbolic ascending temperature boundaries in "
+                       "[25,750] C; symbolic fuel temperature and densities (temperature isotope U238 in the fuel)",
+         stubs=STUBS, qtimeout_ms=20000, max_paths=6000,
+         instances={"quick": [dict(nb=2, nt=0), dict(nb=1, nt=1), dict(nb=2, nt=1), dict(nb=0, nt=0), dict(nb=3, nt=0),
+                              dict(nb=2, nt=0, enabled=False)],
+                    "thorough": [dict(nb=b, nt=t) for b in range(4) for t in range(3)] +
+                                [dict(nb=3, nt=2, enabled=False)]})
+def environment_groups_partition_burnup_and_temperature(ctx, nb, nt, enabled=True):
+    ub = [ctx.real("ub%d" % i, 0.0, 100.0, lo_open=True) for i in range(nb)]
+    ut = [ctx.real("ut%d" % i, TLO, THI) for i in range(nt)]
+    for a, b in zip(ub, ub[1:]):
+        ctx.assume(a < b)
+    for a, b in zip(ut, ut[1:]):
+        ctx.assume(a < b)
+    csm = make_manager(ub, ut)
+    if not enabled:
+        ctx.check("disableEnvGroupUpdates reports the previous state", csm.disableEnvGroupUpdates() is True)
+    members = []
+    hs = heights(len(XS_TYPES))
+    for k, xs in enumerate(XS_TYPES):
+        m = Member(ctx, k, "fuel", "typical", h=hs[k], burn=True, zeroAt=())
+        m.b.p.xsType = xs
+        members.append(m)
+    before = [m.snapshot() for m in members]
+    groups = csm._addXsGroupsFromBlocks({}, [m.b for m in members])
+    nBu = nb + 1
+    single = (nb == 0 and nt == 0) or not enabled       # nothing to update / updates switched off
+    ids = []
+    for m, old in zip(members, before):
+        num = m.b.p.envGroupNum
+        if single:
+            ctx.check("a single environment group (or updates disabled): env group left alone whatever the burnup",
+                      AND(num == (ITE(m.bu > 99, 1, 0) if ctx.canary else 0), m.b.p.envGroup == "A"))
+            bg = tg = 0
+        else:
+            bg, tg = num % nBu, num // nBu
+            wb = group_index(m.bu, ub)
+            wt = group_index(m.T["fuel"], ut)
+            if ctx.canary and m.k == 1:
+                # deliberately wrong: upper boundary exclusive (differs only when the burnup sits on a boundary)
+                wb = sum(ITE(m.bu >= u, 1, 0) for u in ub) if ub else wb + ITE(m.bu > 99, 1, 0)
+            ctx.check_eq("member %d: burnup group = the interval (lower, upper] holding its burnup" % m.k, bg, wb)
+            ctx.check_eq("member %d: temperature group = the interval (lower, upper] holding T(U238)" % m.k, tg, wt)
+            ctx.check("member %d: env group letter follows the group number" % m.k,
+                      m.b.p.envGroup == "ABCDEFGHIJKLMNOPQRSTUVWXYZ"[num])
+        sfx = m.b.getMicroSuffix()
+        ctx.check("member %d: group id = XS type + env group letter" % m.k, sfx == XS_TYPES[m.k] + m.b.p.envGroup)
+        holders = [key for key, col in groups.items() if any(x is m.b for x in col)]
+        ctx.check("member %d is in exactly one group, the one named by its id" % m.k, holders == [sfx])
+        ctx.check("member %d appears once in that group" % m.k, sum(1 for x in groups[sfx] if x is m.b) == 1)
+        ids.append((XS_TYPES[m.k], bg, tg, sfx))
+        # nothing but the env group changes on the block
+        new = m.snapshot()
+        for key in old:
+            if key != "env":
+                ctx.check("grouping leaves member %d %s unchanged" % (m.k, key), same(new[key], old[key]))
+    ctx.check("no block is lost or duplicated", sum(len(col) for col in groups.values()) == len(members))
+    for i in range(len(ids)):
+        for j in range(i + 1, len(ids)):
+            ctx.check("members %d,%d share a group iff same XS type and same environment group" % (i, j),
+                      (ids[i][3] == ids[j][3]) == (ids[i][:3] == ids[j][:3]))
+
+
+# envGroupNum == 52 is accepted by the parameter setter (it refuses only > 52) and maps to chr(123) = '{', which is
+# not a letter and does not map back to 52.
+KNOWN_DEFECT_env_group_number_52_maps_to_brace = False  # repaired in /repo (fix: e84d4ee)
+
+
+@harness("C20", bounds="environment group number n in [0,60] symbolic (forked over its values) on a real HexBlock",
+         stubs=STUBS, max_paths=200)
+def environment_group_number_and_letter_correspond(ctx):
+    import string
+
+    n = ctx.int("n", 0, 60)
+    b = _build.mk_block("fuel", intercoolant=False)
+    try:
+        b.p.envGroupNum = n
+        refused = False
+    except RuntimeError:
+        refused = True
+    limit = 52 + (1 if KNOWN_DEFECT_env_group_number_52_maps_to_brace else 0)
+    if ctx.canary:
+        limit = limit - ITE(n == 37, 20, 0)
+    ctx.check("group numbers beyond the 52 letters are refused, the others accepted", IFF(refused, n >= limit))
+    if refused:
+        return
+    letter = b.p.envGroup
+    if KNOWN_DEFECT_env_group_number_52_maps_to_brace and bool(n == 52):
+        return
+    ctx.check("the env group letter is one of the 52 admissible letters", letter in string.ascii_letters)
+    ctx.check("the group id ends with that letter", b.getMicroSuffix() == b.p.xsType + letter)
+    b2 = _build.mk_block("fuel", intercoolant=False)
+    b2.p.envGroup = letter
+    ctx.check_eq("letter -> number inverts number -> letter (distinct numbers give distinct group ids)",
+                 b2.p.envGroupNum, n)
+
+
+@harness("C20", bounds="1-D cylindrical representation: the matching component of <=3 real blocks; symbolic block "
+                       "weights in [0,1e3] (incl. all zero), densities; concrete component areas (concrete temperatures)",
+         stubs=STUBS, qtimeout_ms=20000,
+         instances={"quick": [dict(n=3, pattern="shared", comp="fuel"), dict(n=2, pattern="typical", comp="clad")],
+                    "thorough": [dict(n=n, pattern=p, comp=c) for n in (1, 2, 3) for p in PATTERNS
+                                 for c in ("fuel", "clad", "duct")
+                                 if any(not spec.endswith("=0") for spec in PATTERNS[p].get(c, []))]})
+def cylindrical_component_average_is_area_and_weight_weighted_mean(ctx, n, pattern, comp):
+    hs = heights(n)
+    members = [Member(ctx, k, "fuel", pattern, h=hs[k], burn=False, zeroAt=(0,), symT=False) for k in range(n)]
+    ws = [ctx.real("w%d" % k, 0.0, 1e3) for k in range(n)]
+    comps = [[c for c in m.b if c.name == comp][0] for m in members]
+    for k, c in enumerate(comps):
+        c.setTemperature(c.temperatureInC + 70.0 * k)      # different (concrete) hot areas in every member
+        c.p.numberDensities = {nuc: x for (cn, nuc), x in members[k].dens.items() if cn == comp}   # (re-inject)
+    areas = [c.getArea() for c in comps]
+    ctx.check("members have pairwise different component areas", len(set(areas)) == len(areas))
+    col = xm.CylindricalComponentsAverageBlockCollection(list(NUCS))
+    names, dens = col._getAverageComponentNucs(comps, ws)
+    tot = sum(w * a for w, a in zip(ws, areas))
+    held = sorted(set(k for m in members for (c, k) in m.dens if c == comp))
+    ctx.check("averaged nuclides = union of the members' nuclides", list(names) == held)
+    for nuc, got in zip(names, dens):
+        xs = [m.dens.get((comp, nuc), 0.0) for m in members]
+        num = sum(w * a * x for w, a, x in zip(ws, areas, xs))
+        if ctx.canary:
+            num = num * ITE(ws[0] > 900, 1.01, 1.0)
+        ctx.check_close("N(%s) x sum(w A) = sum(w A x)" % nuc, got * tot, num, scale=tot + 1e-30)
+        ctx.check("all weights zero => N(%s) reported as 0" % nuc, IMPLIES(tot == 0, got == 0))
+        ctx.check("N(%s) within [min,max] of the members (or 0 without weight)" % nuc,
+                  OR(tot == 0, AND(got >= MIN(*xs) - 1e-12, got <= MAX(*xs) + 1e-12)))
